@@ -65,7 +65,8 @@ def run_shard(spec, acc):
 def gen(rnd, relative_style):
     depth = rnd.choice([2, 3, 4, 5])
     names = trees.NAMES if rnd.random() < 0.7 else ["a", "ab", "a_b", "aa", "a0", "ba", "b"]
-    spec = trees.random_project(rnd, depth=depth, imports_per_file=(0, 3), names=names, name_imports=0.3, externals=0.1, dangling=0.08)
+    root_named = rnd.random() < 0.2
+    spec = trees.random_project(rnd, depth=depth, imports_per_file=(0, 3), names=names, name_imports=0.3, externals=0.1, dangling=0.08, root_named_dir=root_named)
     for f in sorted(spec["files"]):
         if f.endswith(".py") and rnd.random() < 0.25:
             spec["files"][f] = "from . import not_a_module_name\n" + spec["files"][f]
@@ -74,6 +75,8 @@ def gen(rnd, relative_style):
         dirs = [d for d in trees.all_dirs(spec) if d]
         if dirs:
             mp = rnd.choice(dirs)
+            if root_named and "proj" in dirs and rnd.random() < 0.7:
+                mp = "proj"  # module_path = <root>/<root>
             spec["_mp_hint"] = mp
             trees.relativise(spec, mp, rnd)
     return spec
@@ -123,7 +126,11 @@ def one_tree(tspec, relative_style, acc, rnd, only_mp=None, force_excl=None):
             if se.model:
                 acc.count("via_prefix_statements", sum(1 for s in se.model.statements if s.via_prefix))
             # (2a) sub-directory scan == restricted full scan (fully qualified sources only)
-            if not relative_style:
+            if "proj" in dirs:
+                # a package named like the root directory makes a fully qualified name ambiguous in the sub-directory scan
+                # (it also resolves relative to module_path's parent): the equivalence is only claimed for unambiguous sources
+                acc.count("root_named_package_scans")
+            elif not relative_style:
                 sub = trees.mod_of("proj", mp)
                 en, ei = restricted(full.nodes, full.imps, sub)
                 gn, gi = restricted(se.nodes, se.imps, sub)
@@ -214,7 +221,7 @@ def floors(acc, tier):
     why = []
     if acc.counters["scans_judged"] < 200:
         why.append(f"only {acc.counters['scans_judged']} scans judged")
-    for c, n in (("subscan_equivalences", 100), ("entry_point_equivalences", 100), ("prefix_sibling_trees", 10), ("via_prefix_statements", 10), ("include_mode_scans", 30), ("sibling_directory_exclusion_scans", 10)):
+    for c, n in (("subscan_equivalences", 100), ("entry_point_equivalences", 100), ("prefix_sibling_trees", 10), ("via_prefix_statements", 10), ("include_mode_scans", 30), ("sibling_directory_exclusion_scans", 10), ("root_named_package_scans", 20)):
         if acc.counters[c] < n:
             why.append(f"{c}: only {acc.counters[c]}")
     if acc.counters["scan_model_errors"]:
